@@ -266,9 +266,8 @@ def main():
         "json.dumps / json.loads round-trip finite doubles, NaN / Infinity tokens, strings and nesting exactly (CPython contract)",
         "pydantic model_dump field order / enum -> value / None-valued optional fields as re-specified in Model/DailyDoc.v, "
         "HourlyDoc.v, CalTrackDoc.v; validated only by the correspondences that go through them",
-        "daily settings: cross-field validators (_check_alpha_final, _check_final_bounds_scalar, _check_initial_step_percentage, "
-        "_check_reduce_splits_num_std) are not modelled — pure functions of the field values, so they accept again what a "
-        "constructor accepted; tampered documents avoid them",
+        "daily settings: the four cross-field validators are modelled (DocSchema.cross_ok) and enumerated on the real classes every "
+        "run (20 documents); key / value lower-casing of the settings classes is not modelled",
         "hourly / CalTRACK numerical predict is an uninterpreted function of the fields it reads; the theorems prove those "
         "inputs restored, the bit-identity of the numbers is established by the itself stream on the sampled fits only",
         "closed form: proved over the reals (C01_daily_closed_form); binary64 evaluation compared within 1e-9 x scale",
@@ -317,6 +316,7 @@ def main():
             extra = [c01lib.key_order_case(c, modes[(j // 4) % 3], run.rng) for j, c in enumerate(cases)
                      if j % 4 == 1 and c.get("tamper") is None and not c.get("corner")]
             cases += extra
+            cases += c01lib.cross_cases(run.rng, splits)
             for i, c in enumerate(cases):
                 c["k"] = i
     chunk = 30
@@ -333,7 +333,7 @@ def main():
         run.log("TRANSLATOR FAILED: %s: %s" % (type(e).__name__, e))
     # step 1: theorems
     run.check_proofs("Properties/C01.v",
-                     ["Proofs/DailyDocProofs.v", "Proofs/DailyClosedFormProofs.v", "Proofs/HourlyDocProofs.v", "Proofs/CalTrackDocProofs.v"],
+                     ["Proofs/DailyDocProofs.v", "Proofs/DailyKeyOrderProofs.v", "Proofs/DailyClosedFormProofs.v", "Proofs/HourlyDocProofs.v", "Proofs/CalTrackDocProofs.v"],
                      generated=["Generated/C01Gen.v"])
     run.ensure_models(["Model/DailyDocRun.v", "Model/HourlyDocRun.v", "Model/CalTrackDocRun.v", "Model/CasesLib.v"])
     run.log("proofs checked (%.1fs)" % (time.time() - t0))
